@@ -174,7 +174,10 @@ func (s *SelectStmt) ValidateFields(ctx *CheckCtx) error {
 }
 
 func (s *SelectStmt) validateField(f Expression, ctx *CheckCtx) error {
-	if err := f.Check(ctx); err != nil {
+	ctx.current = f
+	err := f.Check(ctx)
+	ctx.current = nil
+	if err != nil {
 		return err
 	}
 
